@@ -92,3 +92,31 @@ Proof.
   apply (reserved_not_path w dl Hwf). exists q. tauto.
 Qed.
 Print Assumptions closure_exact_partial.
+
+(* ---- the hypotheses are satisfiable, jointly, on a run that exercises the interesting path ----
+   The world of Proofs/SetupExample.v: four declared names (base in two versions), an undeclared optional
+   dependency, path actions on PATH (colon) and TEXINPUTS (semicolon), envSet actions, aliases, and a diamond
+   app -> liba -> base, app -> libb -> base whose decisions put base at 1.0 first and then at 2.0.  WF2 holds
+   for it (decided by the checker of Model/SetupWf.v, sound by Proofs/SetupWf.v), the empty environment
+   is consistent, the run returns the explicit state ex_final in which base 1.0 has been replaced by base 2.0,
+   and setup_preserves_inv then says that ex_final is consistent.
+   (WF2 as first stated asked apartness of the reserved variables of ALL strings and was uninhabited - the
+   strings a and A both own SETUP_A; it now asks it of the names the world knows, see Proofs/SetupInv.v.) *)
+From Eupsv Require Import Model.SetupWf Proofs.SetupWf Proofs.SetupExample.
+
+Example c01_hypotheses_inhabited :
+  WF2 ex_world (dl_of ex_world) (rank_of ex_order) /\
+  Inv ex_world (s_env ex_st0) /\ nodollar_paths ex_world (s_env ex_st0) /\ depth_ok ex_cfg 0 /\
+  setup ex_world ex_cfg 20 ex_st0 ex_ds (lit "app") true 0 false = RDone true ex_final [] /\
+  find_setup_product ex_world (s_env ex_final) (lit "base") = find_pv ex_world (lit "base") (lit "2.0") /\
+  Inv ex_world (s_env ex_final).
+Proof.
+  assert (H : WF2 ex_world (dl_of ex_world) (rank_of ex_order)) by (apply wf2_check_sound; vm_compute; reflexivity).
+  assert (R : setup ex_world ex_cfg 20 ex_st0 ex_ds (lit "app") true 0 false = RDone true ex_final [])
+    by (vm_compute; reflexivity).
+  split; [exact H|]. split; [apply Inv_nil|]. split; [apply nodollar_nil|]. split; [exact I|].
+  split; [exact R|]. split; [vm_compute; reflexivity|].
+  exact (proj1 (setup_preserves_inv ex_world ex_cfg (dl_of ex_world) (rank_of ex_order) 20 ex_st0 ex_ds (lit "app")
+                  true 0 false true ex_final [] H (nodollar_nil ex_world) I (Inv_nil ex_world) R)).
+Qed.
+Print Assumptions c01_hypotheses_inhabited.
